@@ -8,21 +8,22 @@ Require Import BS.Gen.C03_params BS.C03.Model BS.C03.Proofs BS.C03.Safety.
 
 (* dispatch never makes a task INIT, keeps the old waiters and creates one for
    every task it is given *)
-Lemma dispatch_one_waiters w ws runs u w' ws' runs' :
-  dispatch_one (w, ws, runs) u = (w', ws', runs') ->
+Lemma dispatch_one_waiters clo w ws runs u w' ws' runs' :
+  dispatch_one clo (w, ws, runs) u = (w', ws', runs') ->
   (forall v, wst w v <> TInit -> wst w' v <> TInit) /\
   (exists b, ws' = ws ++ [(u, b)]) /\ wst w' u <> TInit.
 Proof.
-  unfold dispatch_one. intro E.
-  destruct (st_eqb (if st_eqb (wst w u) TLost then TInit else wst w u) TInit) eqn:R; inversion E; subst; clear E.
-  - split; [|split; [eexists; reflexivity | simpl; rewrite upd_same; discriminate]].
-    intros v Hv. simpl. unfold upd. destruct (Nat.eqb v u); [discriminate | exact Hv].
-  - split; [auto|]. split; [eexists; reflexivity|].
-    intro Z. rewrite Z in R. simpl in R. discriminate.
+  intro E. destruct (dispatch_one_single _ _ _ _ _ _ _ _ E) as [b [Ew [_ Ws]]].
+  split; [intros v; apply (wstep_not_init _ _ _ _ _ Ws)|]. split; [exists b; exact Ew|].
+  unfold dispatch_one in E.
+  set (w0 := if clo && st_eqb (wst w u) TLost then fst (count_lost w u) else w) in *.
+  destruct (st_eqb (if st_eqb (wst w0 u) TLost then TInit else wst w0 u) TInit) eqn:R; inversion E; subst.
+  - simpl. rewrite upd_same. discriminate.
+  - intro Z. rewrite Z in R. simpl in R. discriminate.
 Qed.
 
-Lemma dispatch_fold_waiters : forall ts w ws runs w' ws' runs',
-  fold_left dispatch_one ts (w, ws, runs) = (w', ws', runs') ->
+Lemma dispatch_fold_waiters clo : forall ts w ws runs w' ws' runs',
+  fold_left (dispatch_one clo) ts (w, ws, runs) = (w', ws', runs') ->
   (forall v, wst w v <> TInit -> wst w' v <> TInit) /\
   (forall p, In p ws -> In p ws') /\
   (forall u, In u ts -> exists b, In (u, b) ws') /\
@@ -30,8 +31,8 @@ Lemma dispatch_fold_waiters : forall ts w ws runs w' ws' runs',
 Proof.
   induction ts as [|u r IH]; intros w ws runs w' ws' runs' E; cbn [fold_left] in E.
   - inversion E; subst. repeat split; auto. intros u [].
-  - destruct (dispatch_one (w, ws, runs) u) as [[w1 ws1] runs1] eqn:D.
-    destruct (dispatch_one_waiters _ _ _ _ _ _ _ D) as [N1 [[b Eb] Nu]].
+  - destruct (dispatch_one clo (w, ws, runs) u) as [[w1 ws1] runs1] eqn:D.
+    destruct (dispatch_one_waiters _ _ _ _ _ _ _ _ D) as [N1 [[b Eb] Nu]].
     destruct (IH _ _ _ _ _ _ E) as [N2 [K2 [A2 B2]]]. subst ws1.
     split; [auto|]. split; [intros p Hp; apply K2, in_or_app; left; exact Hp|]. split.
     + intros v [<-|Hv]; [exists b; apply K2, in_or_app; right; left; reflexivity | apply A2, Hv].
@@ -51,14 +52,14 @@ Definition p_ok (w : world) (ev : evaluator) : Prop :=
   (estarted ev = false -> edonec ev = [] /\ ewait ev = []) /\
   (eres ev = None -> estarted ev = true -> sdone (est ev) = false /\ q_ok w ev).
 
-Lemma dispatch_q ev w ev' w' runs :
-  dispatch ev w = (ev', w', runs) -> q_ok w ev ->
+Lemma dispatch_q clo ev w ev' w' runs :
+  dispatch clo ev w = (ev', w', runs) -> q_ok w ev ->
   q_ok w' ev' /\ (forall v, wst w v <> TInit -> wst w' v <> TInit).
 Proof.
   unfold dispatch. simpl.
-  destruct (fold_left dispatch_one (stodo (est ev)) (w, ewait ev, [])) as [[w1 ws] rs] eqn:F.
+  destruct (fold_left (dispatch_one clo) (stodo (est ev)) (w, ewait ev, [])) as [[w1 ws] rs] eqn:F.
   intros E [Q1 Q2]. inversion E; subst. clear E.
-  destruct (dispatch_fold_waiters _ _ _ _ _ _ _ F) as [N [K [A B]]]. split; [|exact N].
+  destruct (dispatch_fold_waiters _ _ _ _ _ _ _ _ F) as [N [K [A B]]]. split; [|exact N].
   split; simpl.
   - intros t Ht.
     assert (Ht' : In t (spending (est ev)) \/ In t (stodo (est ev))).
@@ -70,7 +71,9 @@ Proof.
 Qed.
 
 Section Prog.
+Variable clo : bool.
 Variable eda : bool.
+Hypothesis Hver : clo = true -> eda = false.
 Variable g : list tnode.
 Hypothesis Hwf : wf g.
 
@@ -79,7 +82,7 @@ Lemma q_same_pending w ev s :
 Proof. intros E [Q1 Q2]. split; simpl; [rewrite E; exact Q1 | exact Q2]. Qed.
 
 Lemma top_result_prog ev w ev' w' runs :
-  top_result eda g ev w [] = (ev', w', runs) -> q_ok w ev -> estarted ev = true ->
+  top_result clo eda g ev w [] = (ev', w', runs) -> q_ok w ev -> estarted ev = true ->
   (eres ev' = None -> sdone (est ev') = false /\ q_ok w' ev') /\ estarted ev' = true /\
   (forall v, wst w v <> TInit -> wst w' v <> TInit).
 Proof.
@@ -90,12 +93,12 @@ Proof.
   - inversion E; subst. split; [simpl; discriminate | auto].
   - destruct (is_nil (stodo s1)) eqn:N.
     + inversion E; subst. split; [|split; [exact St | auto]]. intros _. simpl. split; [exact D|]. apply q_same_pending; assumption.
-    + destruct (dispatch (set_est ev s1) w) as [[ev1 w1] runs1] eqn:Dp. inversion E; subst. clear E.
-      destruct (dispatch_q _ _ _ _ _ Dp (q_same_pending w ev s1 P1 Q)) as [Q' NI].
+    + destruct (dispatch clo (set_est ev s1) w) as [[ev1 w1] runs1] eqn:Dp. inversion E; subst. clear E.
+      destruct (dispatch_q _ _ _ _ _ _ Dp (q_same_pending w ev s1 P1 Q)) as [Q' NI].
       split; [|split; [|exact NI]].
-      2:{ destruct (dispatch_spec _ _ _ _ _ Dp) as [_ [_ [_ [_ [Est _]]]]]. rewrite Est. exact St. }
+      2:{ destruct (dispatch_spec _ _ _ _ _ _ Dp) as [_ [_ [_ [_ [Est _]]]]]. rewrite Est. exact St. }
       intros _. split; [|exact Q'].
-      * destruct (dispatch_spec _ _ _ _ _ Dp) as [_ [_ [Es _]]]. rewrite Es. simpl.
+      * destruct (dispatch_spec _ _ _ _ _ _ Dp) as [_ [_ [Es _]]]. rewrite Es. simpl.
         destruct (runnable_fields s1) as [_ [_ [_ [_ [_ [_ Fp]]]]]]. simpl in Fp.
         unfold sdone in *. simpl. apply orb_false_iff in D. destruct D as [D1 _]. rewrite D1. simpl.
         destruct (stodo s1) as [|x r] eqn:T; [discriminate|].
@@ -104,7 +107,7 @@ Proof.
 Qed.
 
 Lemma main_cont_prog ev w ev' w' runs :
-  main_cont eda g ev w = (ev', w', runs) ->
+  main_cont clo eda g ev w = (ev', w', runs) ->
   inv eda g (wst w) (est ev) -> soof (est ev) = false -> q_ok w ev -> estarted ev = true ->
   (eres ev' = None -> sdone (est ev') = false /\ q_ok w' ev') /\ estarted ev' = true /\
   (forall v, wst w v <> TInit -> wst w' v <> TInit).
@@ -113,20 +116,20 @@ Proof.
   destruct (negb (sdone (est ev)) && is_nil (stodo (est ev))) eqn:B.
   - inversion E; subst. split; [|auto]. intros _. apply andb_true_iff in B. destruct B as [B _].
     apply negb_true_iff in B. auto.
-  - destruct (dispatch ev w) as [[ev1 w1] runs1] eqn:Dp.
-    destruct (dispatch_spec _ _ _ _ _ Dp) as [Ws [_ [Es [_ [Est _]]]]].
-    destruct (dispatch_q _ _ _ _ _ Dp Q) as [Q1 NI1].
+  - destruct (dispatch clo ev w) as [[ev1 w1] runs1] eqn:Dp.
+    destruct (dispatch_spec _ _ _ _ _ _ Dp) as [Ws [_ [Es [_ [Est _]]]]].
+    destruct (dispatch_q _ _ _ _ _ _ Dp Q) as [Q1 NI1].
     assert (I1 : inv eda g (wst w1) (est ev1)).
-    { rewrite Es. apply (inv_world eda g (wst w)); [apply (wstep_done eda _ _ _ Ws) | reflexivity | apply inv_runnable, I]. }
+    { rewrite Es. apply (inv_world eda g (wst w)); [apply (wstep_done clo eda _ _ _ Hver Ws) | reflexivity | apply inv_runnable, I]. }
     assert (O1 : soof (est ev1) = false) by (rewrite Es; exact O).
-    unfold main_fuel in E. rewrite (main_top_eq eda g Hwf 2 ev1 w1 runs1 I1 O1) in E.
-    assert (Ht : exists runs2, top_result eda g ev1 w1 [] = (ev', w', runs2)).
+    unfold main_fuel in E. rewrite (main_top_eq clo eda g Hwf 2 ev1 w1 runs1 I1 O1) in E.
+    assert (Ht : exists runs2, top_result clo eda g ev1 w1 [] = (ev', w', runs2)).
     { unfold top_result in *.
       set (s1 := enqueue_all eda g (wst w1) (est ev1) (eroots ev1)) in *.
       destruct (sdone s1); [|destruct (is_nil (stodo s1))].
       - inversion E; subst. eexists; reflexivity.
       - inversion E; subst. eexists; reflexivity.
-      - destruct (dispatch (set_est ev1 s1) w1) as [[e2 w2] r2]. inversion E; subst. eexists; reflexivity. }
+      - destruct (dispatch clo (set_est ev1 s1) w1) as [[e2 w2] r2]. inversion E; subst. eexists; reflexivity. }
     destruct Ht as [runs2 Et].
     destruct (top_result_prog ev1 w1 ev' w' runs2 Et Q1 (eq_trans Est St)) as [A [St' NI2]].
     split; [exact A | split; [exact St' | auto]].
@@ -151,7 +154,7 @@ Lemma set_nth_self {A} (l : list A) e d : set_nth l e (nth e l d) = l.
 Proof. revert e. induction l as [|a l IH]; intros [|e]; simpl; auto. f_equal. apply IH. Qed.
 
 Lemma pstep sy l :
-  sys_ok sy -> psys_ok sy -> legal_label l -> psys_ok (fst (step eda g sy l)).
+  sys_ok sy -> psys_ok sy -> legal_label l -> psys_ok (fst (step_v clo eda g sy l)).
 Proof.
   intros Hok P Hl.
   assert (Keep : forall e ev' w', e < length (sevs sy) ->
@@ -164,18 +167,18 @@ Proof.
     intros v Hv. simpl. unfold upd. destruct (Nat.eqb v t); [|exact Hv].
     destruct s; simpl in Hl; try discriminate. contradiction.
   - destruct (Nat.ltb e (length (sevs sy))) eqn:L; [|exact P]. apply Nat.ltb_lt in L.
-    destruct (step_start eda g (get_ev sy e) (sw sy)) as [[ev' w'] rs] eqn:E. simpl.
+    destruct (step_start clo eda g (get_ev sy e) (sw sy)) as [[ev' w'] rs] eqn:E. simpl.
     unfold step_start in E. destruct (estarted (get_ev sy e)) eqn:St.
     + inversion E; subst. unfold get_ev. rewrite set_nth_self, sys_eta. exact P.
     + unfold main_fuel in E.
       set (ev0 := mkE (eroots (get_ev sy e)) true new_state [] [] None) in *.
       assert (I0 : inv eda g (wst (sw sy)) (est ev0)) by (apply inv_empty; reflexivity).
-      rewrite (main_top_eq eda g Hwf 2 ev0 (sw sy) [] I0 eq_refl) in E.
+      rewrite (main_top_eq clo eda g Hwf 2 ev0 (sw sy) [] I0 eq_refl) in E.
       assert (Q0 : q_ok (sw sy) ev0) by (split; simpl; intros ? []).
       destruct (top_result_prog ev0 (sw sy) ev' w' rs E Q0 eq_refl) as [A [St' NI]].
       apply (Keep e ev' w' L NI). split; [congruence|]. intros Hr Hs. apply (A Hr).
   - destruct (Nat.ltb e (length (sevs sy))) eqn:L; [|exact P]. apply Nat.ltb_lt in L.
-    destruct (step_wait (get_ev sy e) (sw sy) t) as [ev' w'] eqn:E. simpl.
+    destruct (step_wait clo (get_ev sy e) (sw sy) t) as [ev' w'] eqn:E. simpl.
     unfold step_wait in E.
     destruct (eres (get_ev sy e)) eqn:Hr; [inversion E; subst; unfold get_ev; rewrite set_nth_self, sys_eta; exact P|].
     destruct (find_waiter t (ewait (get_ev sy e))) as [r|] eqn:F;
@@ -183,10 +186,10 @@ Proof.
     destruct (ge_ok (wst (sw sy) t)) eqn:G;
       [|inversion E; subst; unfold get_ev; rewrite set_nth_self, sys_eta; exact P].
     inversion E; subst. clear E.
-    set (w' := if r then bookkeep (sw sy) t else sw sy).
+    set (w' := if r then bookkeep clo (sw sy) t else sw sy).
     assert (NI : forall u, wst (sw sy) u <> TInit -> wst w' u <> TInit).
     { intros u Hu. subst w'. destruct r; [|exact Hu].
-      destruct (bookkeep_spec (sw sy) t) as [B1 B2].
+      destruct (bookkeep_spec clo eda Hver (sw sy) t) as [B1 B2].
       destruct (Nat.eq_dec u t) as [->|Ne]; [|rewrite B1; assumption].
       destruct B2 as [->|[_ ->]]; [exact Hu | discriminate]. }
     destruct (P _ (get_ev_In sy e L)) as [P0 P1].
@@ -203,7 +206,7 @@ Proof.
       * right. apply in_or_app. left. exact Hd.
     + intros p Hp. apply filter_In in Hp. apply NI, Q2, Hp.
   - destruct (Nat.ltb e (length (sevs sy))) eqn:L; [|exact P]. apply Nat.ltb_lt in L.
-    destruct (step_main eda g (get_ev sy e) (sw sy)) as [[ev' w'] rs] eqn:E. simpl.
+    destruct (step_main clo eda g (get_ev sy e) (sw sy)) as [[ev' w'] rs] eqn:E. simpl.
     unfold step_main in E.
     destruct (eres (get_ev sy e)) eqn:Hr; [inversion E; subst; unfold get_ev; rewrite set_nth_self, sys_eta; exact P|].
     destruct (edonec (get_ev sy e)) as [|t rest] eqn:Hd;
@@ -241,27 +244,27 @@ Qed.
 Lemma ge_ok_false_handed s : ge_ok s = false -> s <> TInit -> handed s.
 Proof. destruct s; intros G N; try (vm_compute in G; discriminate); unfold handed; auto. congruence. Qed.
 
-Lemma reachable_both eda g (Hwf : wf g) st0 rootss sy :
-  reachable eda g (init_sys st0 rootss) sy -> sys_ok sy /\ psys_ok sy.
+Lemma reachable_both_v clo eda (Hver : clo = true -> eda = false) g (Hwf : wf g) st0 rootss sy :
+  reachable_v clo eda g (init_sys st0 rootss) sy -> sys_ok sy /\ psys_ok sy.
 Proof.
   intro R. induction R as [|sy l R [IH1 IH2] Hl].
   - split; [apply init_sys_ok | apply init_psys_ok].
-  - split; [apply (sf_ok _ _ _ _ _ _ (step_spec eda g Hwf sy l IH1 Hl)) | apply pstep; assumption].
+  - split; [apply (sf_ok _ _ _ _ _ _ _ (step_spec clo eda Hver g Hwf sy l IH1 Hl)) | apply pstep; assumption].
 Qed.
 
 (* At every quiescent point, an evaluation that has been started and has not
    returned: has nothing left to hand out (todo = {}), waits for at least one task
    (pending <> {}), has recorded no error, and every task it waits for is WAITING
    or RUNNING - with an executor or another evaluation, whose next report wakes it. *)
-Theorem progress eda g st0 rootss sy :
-  wf g -> reachable eda g (init_sys st0 rootss) sy -> quiescent sy ->
+Theorem progress_v clo eda (Hver : clo = true -> eda = false) g st0 rootss sy :
+  wf g -> reachable_v clo eda g (init_sys st0 rootss) sy -> quiescent sy ->
   forall e, e < length (sevs sy) -> estarted (get_ev sy e) = true -> eres (get_ev sy e) = None ->
     stodo (est (get_ev sy e)) = [] /\ spending (est (get_ev sy e)) <> [] /\
     serr (est (get_ev sy e)) = false /\
     forall t, In t (spending (est (get_ev sy e))) -> handed (wst (sw sy) t).
 Proof.
   intros Hwf R [Qw Qm] e He Hs Hr.
-  destruct (reachable_both eda g Hwf st0 rootss sy R) as [Ok Pk].
+  destruct (reachable_both_v clo eda Hver g Hwf st0 rootss sy R) as [Ok Pk].
   destruct (Ok _ (get_ev_In sy e He)) as [_ [T _]].
   destruct (Pk _ (get_ev_In sy e He)) as [_ P]. destruct (P Hr Hs) as [D [Q1 Q2]].
   specialize (T Hr). split; [exact T|].
@@ -281,3 +284,11 @@ Proof.
   { apply in_map_iff. exists (t, r). split; [reflexivity|]. apply filter_In. split; [exact Hin | exact G]. }
   rewrite Wn' in X. destruct X.
 Qed.
+
+Theorem progress eda g st0 rootss sy :
+  wf g -> reachable eda g (init_sys st0 rootss) sy -> quiescent sy ->
+  forall e, e < length (sevs sy) -> estarted (get_ev sy e) = true -> eres (get_ev sy e) = None ->
+    stodo (est (get_ev sy e)) = [] /\ spending (est (get_ev sy e)) <> [] /\
+    serr (est (get_ev sy e)) = false /\
+    forall t, In t (spending (est (get_ev sy e))) -> handed (wst (sw sy) t).
+Proof. exact (progress_v (ver eda) eda (ver_ok eda) g st0 rootss sy). Qed.
